@@ -34,6 +34,7 @@ type c09Scenario struct {
 	CancelAt    string    `json:"cancel_at,omitempty"`
 	CancelStep  int       `json:"cancel_at_step,omitempty"` // Ctrl-C right before this scheduling step (lands between two operations of the probe)
 	Reply       []byte    `json:"reply,omitempty"`
+	FarDeadline bool      `json:"context_has_far_deadline,omitempty"`
 	Decoy       string    `json:"other_scanner_timeouts,omitempty"` // a second scanner with these timeouts is created after the one under test
 }
 
@@ -108,6 +109,7 @@ func c09Generate(p picker, o Opts) *c09Scenario {
 	default: // plain reply after a latency
 		sc.Script = append(sc.Script, c09Step{Op: "wait", Wait: lat("l1")}, c09Step{Op: "send", Bytes: reply}, c09Step{Op: "stall"})
 	}
+	sc.FarDeadline = p.pct("fardeadline", 30)
 	if p.pct("decoy", 30) {
 		sc.Decoy = []time.Duration{dial * 20, dial / 20, time.Hour}[p.n("decoyv", 3)].String()
 	}
@@ -247,6 +249,12 @@ func runC09(t *testing.T, c simrt.Chooser, o Opts) *Out {
 	}, func(r *simrt.Run) {
 		ctx, cancel := context.WithCancel(context.Background())
 		defer cancel()
+		if sc.FarDeadline {
+			// the caller's context carries a deadline of its own, far beyond this probe
+			var c2 context.CancelFunc
+			ctx, c2 = context.WithTimeout(ctx, time.Hour)
+			defer c2()
+		}
 		r.RegisterSignal(func() { cancelT = r.Now(); cancelFired = true; cancel() })
 		scanner := socks5.NewScanner(socks5.WithDialTimeout(dialTO), socks5.WithDataTimeout(dataTO))
 		if sc.Decoy != "" {
